@@ -383,6 +383,61 @@ Proof.
     rewrite (conv_ext K _ (lpoly (ppow [1; - p] (S m))) _ (shift1 (gbin p m)) n); [|reflexivity|intros; apply pascal_fps].
     rewrite conv_shift1. rewrite <- shift1_pshift. destruct n as [|k]; [reflexivity|]. cbn [shift1]. apply IH.
 Qed.
+
+(* ---- what InverseZTransformer.ratfun evaluates for a pole p of order o:
+        sum_i r_i * bino_i * p^(1-i) / (i-1)! * p^n ,  bino_i = n (n-1) ... (n-i+2)
+   (real poles: `sum_p`; conjugate pairs: `prefac * r1 * exp(j omega_0 (1-i))` with
+   p = lam exp(j omega_0)).  bino_i / (i-1)! is the binomial coefficient. ------- *)
+Fixpoint ffact (n m : nat) : nat :=            (* n (n-1) ... (n-m+1) *)
+  match m with O => 1 | S m' => ffact n m' * (n - m') end.
+Lemma ffact_S n m : ffact (S n) (S m) = (S n * ffact n m)%nat.
+Proof. induction m as [|m IH]; [cbn; lia|].
+  change (ffact (S n) (S (S m))) with (ffact (S n) (S m) * (S n - S m))%nat. rewrite IH.
+  change (ffact n (S m)) with (ffact n m * (n - m))%nat. cbn [Nat.sub]. lia. Qed.
+Lemma ffact_binom n m : ffact n m = (fact m * binom n m)%nat.
+Proof. revert m. induction n as [|n IH]; intros [|m].
+  - reflexivity.
+  - cbn [ffact binom]. rewrite Nat.sub_0_l. lia.
+  - cbn. reflexivity.
+  - rewrite ffact_S. cbn [binom]. rewrite Nat.mul_add_distr_l.
+    change (fact (S m)) with (S m * fact m)%nat.
+    replace (S m * fact m * binom n m)%nat with (S m * ffact n m)%nat by (rewrite (IH m); lia).
+    replace (S m * fact m * binom n (S m))%nat with (ffact n (S m)) by (rewrite (IH (S m)); reflexivity).
+    change (ffact n (S m)) with (ffact n m * (n - m))%nat.
+    destruct (Nat.lt_ge_cases n m) as [H|H].
+    + rewrite (IH m), (binom_small n m H). lia.
+    + nia. Qed.
+Lemma ofnat_mul a b : ofnat (a * b) = ofnat a * ofnat b.
+Proof. induction a as [|a IH]; [unfold SeqDFT.ofnat; cbn; ring|].
+  cbn [Nat.mul]. rewrite ofnat_add, IH, ofnat_S. ring. Qed.
+Lemma fact_nz m : ofnat (fact m) <> 0.
+Proof. apply ofnat_nz. apply lt_O_fact. Qed.
+(* the prefactor of the code times p^n is the binomial sequence of zt_binom *)
+Theorem prefac_binom (p : K) (n m : nat) : p <> 0 ->
+  ofnat (ffact n m) * zpw p (- Z.of_nat m) / ofnat (fact m) * pw p n = gbin p m n.
+Proof.
+  intros Hp. unfold gbin. rewrite ffact_binom, ofnat_mul.
+  pose proof (fact_nz m) as Hf.
+  destruct (Nat.lt_ge_cases n m) as [H|H].
+  - rewrite (binom_small n m H). unfold SeqDFT.ofnat at 2 4. cbn [SeqFilter.sumn]. field. exact Hf.
+  - unfold zpw. destruct (Z.ltb_spec (- Z.of_nat m) 0) as [Hm|Hm].
+    + replace (Z.to_nat (- - Z.of_nat m)) with m by lia.
+      assert (E : pw p n = pw p m * pw p (n - m)) by (rewrite <- pw_add; f_equal; lia). rewrite E.
+      transitivity (ofnat (binom n m) * (pw p m * pw (1 / p) m) * pw p (n - m)); [field; exact Hf|].
+      rewrite pw_inv by exact Hp. ring.
+    + assert (m = O) by lia. subst m. cbn [Z.of_nat Z.opp Z.to_nat SeqFilter.pw]. rewrite Nat.sub_0_r. field. exact Hf.
+Qed.
+(* a pole pair (or any two poles) of order m+1 with residues r1, r2 *)
+Theorem zt_pair_binom (r1 r2 p1 p2 : K) (m : nat) :
+  is_ztl (fun n => r1 * gbin p1 m n + r2 * gbin p2 m n)
+         (pq_add (pscal r1 (pshift m), ppow [1; - p1] (S m)) (pscal r2 (pshift m), ppow [1; - p2] (S m))).
+Proof.
+  apply (zt_add_sound (fscal K r1 (gbin p1 m)) (fscal K r2 (gbin p2 m))).
+  - intros n. cbn [fst snd]. rewrite lpoly_pscal. pose proof (zt_binom p1 m n) as E. cbn [fst snd] in E. rewrite <- E.
+    rewrite conv_comm, conv_scal_l, conv_comm. reflexivity.
+  - intros n. cbn [fst snd]. rewrite lpoly_pscal. pose proof (zt_binom p2 m n) as E. cbn [fst snd] in E. rewrite <- E.
+    rewrite conv_comm, conv_scal_l, conv_comm. reflexivity.
+Qed.
 End ZT.
 Arguments zt_term {K}. Arguments sem_term {K}. Arguments zt_np {K}. Arguments sem_np {K}.
 Arguments BOne {K}. Arguments BImp {K}. Arguments BSin {K}. Arguments BCos {K}.
